@@ -88,8 +88,8 @@ def recursive_tba(prog, c):
 
 class Gen15:
     """Random stratifiable programs inside the property's quantifier: atoms, negation of
-    lower layers, = and != (no built-in predicate atoms: N17; no function application in
-    a head: N82; let-transforms only when `transforms`). Typed columns (N number 1..6, A
+    lower layers, = and != (no built-in predicate atoms: N17; function applications in
+    heads of non-recursive rules: t_fnhead; let-transforms only when `transforms`). Typed columns (N number 1..6, A
     name) so that no two facts have equal Atom.Hash() (F8). Safe by construction: every
     test comes after the literals that bind its variables, so analysis.RewriteClause keeps
     the body order and ProgramInfo.Rules equals the clause list."""
@@ -243,6 +243,39 @@ class Gen15:
         head = atom(h, X if r.random() < 0.6 else Z)
         return [h], [clause(head, body)]
 
+    def t_fnhead(self, lower):
+        """function applications in rule heads (N82, fixed): the explainer has to evaluate the
+        head under each body solution, as the engine does. h(f(X, k)) :- q(X)[, test], sometimes
+        with a plain second rule for h; or h(X, f(X, Y)) :- q(X), s(Y), where several body
+        solutions may give the same head (f = mult, k = 0) or another one. Not recursive."""
+        r = self.r
+        q = self.pick(lower, "N") or self.u
+        s = self.pick([p for p in lower if p != q], "N") or self.d
+        X, Y = var(1), var(2)
+        k = cst(num(r.choice([0, 1, 1, 2])))
+        f = r.choice(["plus", "plus", "minus", "mult"])
+        if r.random() < 0.5:
+            h = self.new_pred("N")
+            body = [["atom", atom(q, X)]]
+            x = r.random()
+            if x < 0.3:
+                body.append(["neg", atom(s, X)])
+                self.feats.add("neg")
+            elif x < 0.5:
+                body.append(["ineq", X, cst(self.val("N"))])
+                self.feats.add("ineq")
+            cl = [clause(atom(h, app(f, X, k)), body)]
+            if r.random() < 0.4:
+                cl.append(clause(atom(h, X), [["atom", atom(s, X)]]))
+        else:
+            h = self.new_pred("NN")
+            e = app(f, X, Y) if r.random() < 0.6 else app(f, Y, k)
+            head = atom(h, X, e) if r.random() < 0.5 else atom(h, e, X)
+            cl = [clause(head, [["atom", atom(q, X)], ["atom", atom(s, Y)]])]
+        r.shuffle(cl)
+        self.feats.add("fn-head")
+        return [h], cl
+
     def free_clause(self, h, layer, lower):
         r = self.r
         env = {}
@@ -350,6 +383,8 @@ class Gen15:
                 preds, cl = self.t_eqbind(lower)
             elif x < 0.7 and self.transforms:
                 preds, cl = self.t_let(lower)
+            elif x < 0.78:
+                preds, cl = self.t_fnhead(lower)
             else:
                 preds, cl = [], []
             free = []
@@ -487,7 +522,7 @@ def cyclic_program(r):
             cl.append(c)
     for i in range(n):
         add(edge(ring[i], ring[(i + 1) % n]))
-    for _ in range(r.choice([0, 0, 1, 1, 2])):
+    for _ in range(r.choice([0, 1, 1, 2, 2, 3])):
         add(edge(r.choice(ring), r.choice(ring)))
         feats.add("chord")
     init = [fact(0, num(1))] + ([fact(0, num(2))] if r.random() < 0.4 else [])
@@ -528,16 +563,17 @@ def cyclic_program(r):
             "transforms": False}
 
 
-def ring_orders(n):
+def ring_orders(n, entry_pairs_only=False):
     """EVERY clause order of the ring program over n predicates with one entry: p1 :- p2, ..,
-    pn :- p1, p1 :- p0, and a goal rule g :- p_i, p_j for every ordered pair i != j."""
+    pn :- p1, p1 :- p0, and a goal rule g :- p_i, p_j for every ordered pair i != j (with
+    entry_pairs_only: the pairs that contain the entry p1)."""
     import itertools
     X = var(1)
     ring = [clause(atom(i, X), [["atom", atom(i % n + 1, X)]]) for i in range(1, n + 1)]
     base = clause(atom(1, X), [["atom", atom(0, X)]])
     for i in range(1, n + 1):
         for j in range(1, n + 1):
-            if i == j:
+            if i == j or (entry_pairs_only and 1 not in (i, j)):
                 continue
             goal = clause(atom(n + 1, X), [["atom", atom(i, X)], ["atom", atom(j, X)]])
             for perm in itertools.permutations(ring + [base, goal]):
@@ -549,19 +585,27 @@ def ring_orders(n):
 def ring_structures():
     """Every program over three ring predicates p1, p2, p3 in which each predicate has one or two
     rules (ordered) with a single body atom out of p0 (base), p1, p2, p3, the dependency graph has a
-    cycle through at least two predicates, and a goal rule g :- p_i, p_j (i != j, both orders);
-    clauses grouped by head (the relative order of the rules of one predicate is what Explain sees)."""
+    cycle through at least two predicates, and a goal rule g :- p_i, p_j (i != j, both orders) - one
+    representative per renaming of p1, p2, p3; clauses grouped by head (the relative order of the
+    rules of one predicate is what Explain sees)."""
     import itertools
     X = var(1)
     opts = [[b] for b in range(4)] + [[a, b] for a in range(4) for b in range(4) if a != b]
+    perms = [dict(zip((0, 1, 2, 3), (0,) + q)) for q in itertools.permutations((1, 2, 3))]
+
+    def key(rules, goal, pi):
+        rr = {pi[h]: tuple(pi[b] for b in rules[h]) for h in rules}
+        return (rr[1], rr[2], rr[3], (pi[goal[0]], pi[goal[1]]))
     for r1, r2, r3 in itertools.product(opts, repeat=3):
         rules = {1: r1, 2: r2, 3: r3}
         cl = [clause(atom(h, X), [["atom", atom(b, X)]]) for h in (1, 2, 3) for b in rules[h]]
         comps = dc.stratify(cl)
         if not any(len(c) > 1 for c in comps) or not any(0 in rules[h] for h in rules):
             continue
-        for i, j in ((1, 2), (2, 1), (1, 3), (3, 1), (2, 3), (3, 2)):
-            c2 = cl + [clause(atom(4, X), [["atom", atom(i, X)], ["atom", atom(j, X)]])]
+        for goal in ((1, 2), (2, 1), (1, 3), (3, 1), (2, 3), (3, 2)):
+            if key(rules, goal, perms[0]) != min(key(rules, goal, pi) for pi in perms):
+                continue
+            c2 = cl + [clause(atom(4, X), [["atom", atom(goal[0], X)], ["atom", atom(goal[1], X)]])]
             yield {"clauses": c2, "layers": dc.stratify(c2), "init": [fact(0, num(1))], "pre": [],
                    "features": ["exhaustive", "cyclic", "ring-structure"], "transforms": False}
 
@@ -768,7 +812,7 @@ def need_complete(prog, opts, mode):
     return opts["max_proofs"] == 1
 
 
-NCYCLIC_QUICK = 60
+NCYCLIC_QUICK = 90
 
 CODES = {2: "a returned proof that is not flagged partial is not a valid derivation of the goal",
          3: "no complete valid proof returned for a fact of the evaluated store"}
@@ -809,14 +853,8 @@ def probes(ck):
     for (kid, what, _, test), o in zip(cases, outs):
         if "out" in o and o["out"]["stage"] == "ok" and test(o["out"]):
             ck.known("%s %s" % (kid, what))
-    # N82: Explain panics on a rule head with a function application
-    o = ck.run_go("c15", [{"src": "p0(1).\np1(fn:plus(V1, 1)) :- p0(V1).\n", "pre": "", "max_proofs": 1,
-                           "max_depth": 0, "modes": ["posthoc"]}])[0]
-    if "panic" in o and "unhashable" in o["panic"]:
-        ck.known("N82 post-hoc Explain panics (hash of unhashable type ast.ApplyFn) for a goal of a rule whose head "
-                 "contains a function application: p0(1). p1(fn:plus(X,1)) :- p0(X).")
-    elif "out" in o and any(g["posthoc"]["err"] for g in o["out"].get("goals") or [] if g["fact"]["p"] == "p1"):
-        ck.known("N82 post-hoc Explain finds no proof for a goal of a rule whose head contains a function application")
+    # N82 (function application in a rule head: Explain panicked) is fixed: generator template
+    # t_fnhead, corpus/C15/n82_*.json
 
 
 def has_partial(n):
@@ -919,7 +957,7 @@ def run(ck):
         optss.append(o)
         origin.append("corpus:" + nm)
     ncorpus = len(progs)
-    for k in range(ck.n(200, 5000)):
+    for k in range(ck.n(180, 5000)):
         x = rng.random()
         transforms = x < 0.15
         p = gen_program(rng, transforms)
@@ -958,7 +996,7 @@ def run(ck):
             nexh += 1
         exh_blocks["two-rule schema"] = nexh
         for nm, gen in (("ring2 all clause orders", lambda: ring_orders(2)), ("ring3 all clause orders", lambda: ring_orders(3)),
-                        ("ring4 all clause orders", lambda: ring_orders(4)), ("ring structures", ring_structures),
+                        ("ring4 all clause orders", lambda: ring_orders(4, True)), ("ring structures", ring_structures),
                         ("guarded recursion", guarded_recursion)):
             k = 0
             for p in gen():
@@ -999,7 +1037,7 @@ def run(ck):
                                        "derivations; proof_exists: every fact of the least model has one"})
     probes(ck)
     n_tba_progs = sum(1 for p in progs if any(recursive_tba(p, c) for c in p["clauses"]))
-    if st["tba_nodes"]["recorded"] < 20 and len(progs) >= 100:
+    if st["tba_nodes"]["recorded"] < 20 and len(progs) >= 100 and not ck.violations:
         ck.violation({"property": "C15", "kind": "generator: (almost) no recorded proof node comes from a recursive rule with a "
                       "test in front of the recursive atom", "no_longer_checks": "correspondence Run.C15.judge (input "
                       "distribution broken: seeded C15-2 class)", "count": st["tba_nodes"]}, "no-failing-input-found")
@@ -1009,7 +1047,7 @@ def run(ck):
             feats[f] = feats.get(f, 0) + 1
     nontrivial = set()
     for i, p in enumerate(progs):
-        if set(p.get("features", [])) & {"recursive", "neg", "eq-bind", "idb-init", "exhaustive", "let"} or origin[i].startswith("corpus"):
+        if set(p.get("features", [])) & {"recursive", "neg", "eq-bind", "idb-init", "exhaustive", "let", "fn-head"} or origin[i].startswith("corpus"):
             nontrivial.add(go_cases[i]["src"] + "#" + go_cases[i]["pre"])
     optd = {}
     for o in optss:
@@ -1034,9 +1072,10 @@ def run(ck):
            "exhaustive_blocks": exh_blocks,
            "exhaustive": nexh > 0,
            "exhaustive_scope": ("(1) every clause order (all permutations) of the ring programs p1 :- p2, .., pn :- p1, p1 :- p0, "
-                                "g :- p_i, p_j for n = 2, 3, 4 and every ordered pair i != j; (2) every program over three ring "
-                                "predicates with one or two single-atom rules each (bodies p0..p3, ordered), a cycle through >= 2 "
-                                "predicates, and a goal rule over every ordered pair; (3) every recursive rule p2 :- A, T, B with one "
+                                "g :- p_i, p_j for n = 2, 3 and every ordered pair i != j, for n = 4 the six ordered pairs that contain the "
+                                "entry p1; (2) every program over three ring predicates with one or two single-atom rules each "
+                                "(bodies p0..p3, ordered), a cycle through >= 2 predicates, and a goal rule over every ordered pair, "
+                                "one representative per renaming of the ring predicates; (3) every recursive rule p2 :- A, T, B with one "
                                 "of 9 tests T (!=, =, negated atoms, binding =) between the binding atom A and the recursive atom B, "
                                 "both clause orders, base facts needing several incremental rounds; MaxProofs 1 and 2 alternate; "
                                 "(4) " if nexh else "") + ("all stratifiable safe programs made of the seed rule p2(X) :- p1(X), one rule for p2(X) and one for "
@@ -1059,8 +1098,8 @@ def run(ck):
         "from the reported bindings and lets positive premises and equalities bind the rest, as the engine's join does",
         "a leaf is accepted for facts of the program text / the caller's store that the evaluated store holds; the caller's "
         "store only holds facts of extensional predicates",
-        "fragment: names, int64 numbers; fn:plus/minus/mult in equalities; no built-in predicate atoms (N17), no function "
-        "application in rule heads (N82), let-transforms in recorded mode only, no do-transforms; typed columns (F8)",
+        "fragment: names, int64 numbers; fn:plus/minus/mult in equalities and in heads of non-recursive rules; no built-in "
+        "predicate atoms (N17), let-transforms in recorded mode only, no do-transforms; typed columns (F8)",
         "a complete proof is owed post-hoc for transform-free programs and in recorded mode with MaxProofs = 1, at the default "
         "depth limit; recorded mode with MaxProofs > 1 (N81) and initial facts of recursive predicates in recorded mode (N80) "
         "are known findings: there only validity of the proofs not flagged partial is judged",
@@ -1103,13 +1142,17 @@ META = {
             "explain_ref_fuel_suffices discharge the two steps that proof_exists_partial assumed). Identifiers: in a model of "
             "edbProofID/absenceProofID/derivedProofID with the hash as argument the identifier is a function of (rule, fact, "
             "sub-identifiers), the framing of the hashed parts is injective, and with an injective hash equal identifiers mean "
-            "equal content. On every run generated programs (mutual recursion with cycle cuts, "
-            "closures, negation, (in)equalities, equalities that bind fresh variables, initial facts of derived predicates, "
-            "let-transforms in recorded mode) are evaluated by the real engine with and without a MemoryRecorder; for every "
+            "equal content. On every run generated programs (mutual recursion with cycle cuts, rings of 2-4 mutually recursive "
+            "predicates with chords, several entries and goal rules over several ring members in every clause order, "
+            "closures, negation, (in)equalities, tests in front of the recursive atom of a rule, equalities that bind fresh "
+            "variables, initial facts of derived predicates, let-transforms in recorded mode) are evaluated by the real engine with and without a MemoryRecorder; for every "
             "stored fact the proofs of provenance.Explain and BuildFromRecording (several MaxProofs / MaxDepth) are judged by "
             "check_proof inside Coq: a rejected proof, a missing complete proof, identifiers that are not a function of proof "
-            "content, or a store changed by the recorder are violations. Thorough adds an exhaustive 2-rule schema.",
+            "content, or a store changed by the recorder are violations; a node whose rule is not (textually) one of the program's "
+            "rules has no rule for check_proof and is rejected. Thorough adds exhaustive blocks: a 2-rule schema, every clause "
+            "order of ring programs with 2-4 predicates, every 3-predicate ring structure (up to renaming), every recursive rule "
+            "with a test between the binding atom and the recursive atom.",
     "note": "Trusted: Coq kernel + vm_compute; the Go-proof-to-tree conversion in harness/c15 and the hand-written Datalog model "
-            "(tied to the engine by C01). After fixes F9, F9b, N16. Known findings: N80/N81 (recorded mode under cycles), N82 "
-            "(function application in a head: Explain panics), N83 (wildcard in a body atom, recorded mode), N17, F8. The identifier model (coq/Prov/ProofId.v) is not run against Go; the Go identifiers are checked per run (content <-> id).",
+            "(tied to the engine by C01). After fixes F9, F9b, N16, N82 (function application in a head). Known findings: N80/N81 (recorded mode under cycles), "
+            "N83 (wildcard in a body atom, recorded mode), N17, F8. The identifier model (coq/Prov/ProofId.v) is not run against Go; the Go identifiers are checked per run (content <-> id).",
 }
